@@ -199,6 +199,39 @@ PROPS["C11"] = dict(
     thorough=[c11(2, 0, 1, 3), c11(2, 1, 1, 2, 3000), c11(3, 0, 0, 2, 3000)],
 )
 
+C12H = ["resolve/c11_inbound.go", "resolve/c12_subs.go"]
+
+def c12(nsubs, nev, mode, preempt, timeout=1800):
+    acts = []
+    if mode & 1: acts.append("Complete")
+    if mode & 2: acts.append("Done")
+    if mode & 4: acts.append("subscriber 0 unsubscribes at a symbolic point")
+    return spec("H-C12[%d,%d,%d|p%d]" % (nsubs, nev, mode, preempt), "./pkg/engine/resolve", C12H, "VerifC12Delivery", [nsubs, nev, mode],
+                "real Resolver subscription machinery (AsyncResolveGraphQLSubscription, trigger registry, subscriptionUpdater, executeSubscriptionUpdate, removal paths) with a stub source and recording writers; %d subscriber(s) on one trigger, %d event(s), then %s; every interleaving at visible operations with at most %d preemptive switches" % (nsubs, nev, ", ".join(acts) or "nothing", preempt),
+                ["done"], timeout=timeout, preempt=preempt)
+
+PROPS["C12"] = dict(
+    title="Subscription delivery is ordered, exact, and stops at completion",
+    level_text="bounded model checking of the real subscription code under the engine scheduler (goroutines interpreted from go/ssa, every visible synchronisation operation a possible context switch, schedule explored exhaustively within the preemption bound): per subscriber the messages are the events in source order, nothing is written after completion was signalled (the writer stub inspects the completed channel on every call), writer calls never overlap; counterexample schedules are replayed natively through gates inserted into an overlay copy",
+    level_note="bounds: subscribers, events, one history shape per mode (source: events, Complete, Done; client: unsubscribe), preemption bound; heartbeat ticker, shutdown, filters and startup hooks not exercised; fetch timeout timer never fires; A-DRF; trusted base: gosym scheduler/primitive models, z3",
+    design_ref="DESIGN.md §4 C12",
+    assumptions=["A-DRF", "time.AfterFunc timers never fire (the subscription fetch timeout is outside)"],
+    stubs=["SubscriptionDataSource, SubscriptionResponseWriter, Reporter, AsyncErrorWriter: harness stubs", "sync/atomic/channels/context primitives modelled by the engine"],
+    quick=[c12(1, 2, 3, 2), c12(1, 1, 7, 2), c12(1, 2, 5, 2)],
+    thorough=[c12(2, 1, 3, 2, 3000), c12(1, 2, 7, 3, 3000)],
+)
+
+PROPS["C13"] = dict(
+    title="Subscription triggers are shared, started once, and always cleaned up",
+    level_text="bounded model checking (same harness and scheduler as C12): after the source's Done no trigger or subscription record remains, the reported subscription and trigger counts are balanced, every subscriber's completion is signalled, and the upstream is started exactly once per trigger, on every interleaving within the preemption bound",
+    level_note="bounds as C12; trigger identity (hash of input and headers), start failures, client removal and shutdown are not exercised yet; trusted base as C12",
+    design_ref="DESIGN.md §4 C13",
+    assumptions=["A-DRF", "timers never fire"],
+    stubs=["as C12"],
+    quick=[c12(1, 1, 3, 2), c12(1, 1, 7, 2)],
+    thorough=[c12(2, 1, 3, 2, 3000), c12(2, 1, 7, 2, 3000)],
+)
+
 NOT_APPLICABLE = {
     "C20": "The gRPC datasource's data path runs on protoreflect/dynamicpb/protocompile (reflection, unsafe, generated descriptors); no SSA->SMT encoding of it is within reach of the engine built here, and the property is about exactly that path (DESIGN.md §5).",
 }
